@@ -569,6 +569,21 @@ class Engine:
                     out.append((s2, self.getattr(v2, n.attr, s2)))
                 except self.builtin_mod.NoneAttr:
                     out.append((s2, self.raise_py(s2, AttributeError, f"'NoneType' object has no attribute '{n.attr}'")))
+                except Exception as e:
+                    if type(e).__name__ != "MessageAttrFork":
+                        raise
+                    # opaque message of undetermined class: one path per class that has the field, AttributeError otherwise
+                    from .builtins import typeof_f, cls_code
+                    for c in e.feas:
+                        s3 = s2.clone()
+                        s3.assume(typeof_f(e.v.e) == cls_code(c))
+                        s3.note(f"{n.attr}@{c.__name__}")
+                        out.append((s3, self.msg_field_value(s3, c, n.attr, e.v.e)))
+                    if e.other:
+                        s3 = s2.clone()
+                        for c in e.feas:
+                            s3.assume(typeof_f(e.v.e) != cls_code(c))
+                        out.append((s3, self.raise_py(s3, AttributeError, f"message has no field {n.attr}")))
         return out
 
     def getattr(self, v: V, name: str, st: State):
@@ -634,6 +649,7 @@ class Engine:
             if isinstance(v, Raised):
                 out.append((s, v))
                 continue
+            self.cur_await_node = n
             out.extend(self.builtin_mod.await_(self, s, v))
         return out
 
@@ -899,6 +915,8 @@ class Engine:
         if isinstance(tgt, (ast.Tuple, ast.List)):
             out = []
             for s, v1 in self.split_union(v, st):
+                if isinstance(v1, VRef) and s.heap[v1.oid].kind == "slist":
+                    v1 = VSeq(s.heap[v1.oid].f["e"], s.heap[v1.oid].f["elem"])
                 try:
                     items = self.iter_concrete(v1, s)
                 except Unsupported:
